@@ -7,6 +7,7 @@ import (
 	"context"
 	"fmt"
 	"strings"
+	"sync/atomic"
 	"time"
 
 	"github.com/samsarahq/thunder/federation"
@@ -180,6 +181,7 @@ func c15Sibling(c *Ctx) {
 	rep := c.Rep
 	cs := map[string]interface{}{"gateway": "one sub-query fails while a sibling sub-query waits on its context"}
 	slowSeen := make(chan string, 4)
+	var slowStarted int32
 	mk := func(name string, reg func(q *schemabuilder.Object)) federation.ExecutorClient {
 		sb := schemabuilder.NewSchemaWithName(name)
 		reg(sb.Query())
@@ -196,6 +198,7 @@ func c15Sibling(c *Ctx) {
 		}),
 		"s2": mk("s2", func(q *schemabuilder.Object) {
 			q.FieldFunc("slow", func(ctx context.Context) (int64, error) {
+				atomic.StoreInt32(&slowStarted, 1)
 				select {
 				case <-ctx.Done():
 					slowSeen <- "cancelled"
@@ -237,15 +240,19 @@ func c15Sibling(c *Ctx) {
 		rep.Fail("impl_ne_spec", nil, cs, map[string]interface{}{"what": "the gateway is still blocked 3 s after a sub-query failed: the slow sibling was not cancelled", "elapsed_ms": time.Since(t0).Milliseconds()})
 		return
 	}
-	select {
-	case how := <-slowSeen:
-		if how != "cancelled" {
-			rep.Fail("impl_ne_spec", nil, cs, map[string]interface{}{"what": "the slow sibling ran to its own timeout instead of being cancelled"})
+	// the slow sibling, if it was started at all (the failure may have cancelled the request before), must see
+	// its context cancelled
+	if atomic.LoadInt32(&slowStarted) == 1 {
+		select {
+		case how := <-slowSeen:
+			if how != "cancelled" {
+				rep.Fail("impl_ne_spec", nil, cs, map[string]interface{}{"what": "the slow sibling ran to its own timeout instead of being cancelled"})
+				return
+			}
+		case <-time.After(3 * time.Second):
+			rep.Fail("impl_ne_spec", nil, cs, map[string]interface{}{"what": "the slow sibling sub-query was started and never cancelled after the request ended"})
 			return
 		}
-	case <-time.After(3 * time.Second):
-		rep.Fail("impl_ne_spec", nil, cs, map[string]interface{}{"what": "the slow sibling sub-query was never cancelled after the request ended"})
-		return
 	}
 	rep.Count("gateway_sibling_failure:prompt")
 }
